@@ -21,19 +21,19 @@
 (*   x every register literal the field lists (all spellings: PC/SP/SR and R0/R1/R2, RA and R10, R0R1 and R0P)  *)
 (*     + where the table lists ALL registers an instruction takes (FieldsComplete): every other register        *)
 (*       literal of the CPU (other registers of the class, registers of another size class) -> must be rejected *)
-(*   x definition scenario (Scens: REG, EQU, =, SET/EVAL, :=, alias of an alias by REG and by EQU, re-definition,*)
+(*   x definition scenario (ScenDefs: REG, EQU, =, SET/EVAL, :=, alias of an alias by REG and by EQU, re-definition,*)
 (*     snapshot = a copy taken before the original is re-defined); ScenMode "all": every scenario, "rotate":     *)
 (*     one scenario per (form, position, register), rotating so that every register and every form meets every   *)
 (*     scenario.  The other operands of the statement are IsaGen's representative legal operands.               *)
 EXTENDS IsaCommon, TLC, Json
 CONSTANTS AddrMax, Cpu, Salt,
-          HasPc(_), SeqPC,   \* IsaGen: PC-dependent form, statement address
-          LitTab,            \* sequence of [l |-> register literal, c |-> size class]: every literal of the CPU's tables
+          HasPc(_), SeqPC, RepOps(_, _),   \* IsaGen: PC-dependent form, statement address, representative legal operands
+          LitTab,            \* sequence of [l |-> register literal, c |-> size class of register symbols]: every literal
+                             \* of the CPU's tables
           Lits,              \* the set of these literals
-          FormTab,           \* sequence of [f |-> form with a register field, o |-> representative legal operands,
-                             \*   p |-> sequence of [i |-> register field position, ts |-> indices (LitTab) of the listed literals]]
-                             \* (LitTab, Lits, FormTab: IsaAliasTab, evaluated once by the instantiating module)
-          RegClass(_),       \* field -> "" (not a register field) or the size class of register symbols that fit
+          FldTab,            \* sequence of [fld |-> register field, names |-> set of the literals it lists]
+          FormTab,           \* sequence of [f |-> form with a register field, p |-> sequence of its register field positions]
+                             \* (LitTab, Lits, FldTab, FormTab: IsaAliasTab, evaluated once by the instantiating module)
           VarDef,            \* mnemonic that defines a re-definable symbol on this target ("SET", or "EVAL")
           FieldsComplete,    \* TRUE: a register field lists every register the instruction takes
           ScenMode           \* "all" | "rotate"
@@ -42,10 +42,7 @@ VARIABLES form, ops, pc,     \* the machine statement (as in IsaGen); ops[plan.i
           sym,               \* symbol table: set of [name, lit (register literal), const (defined by REG / EQU / =)]
           plan               \* what this behaviour is going to do (fixed by AInit)
 
-avars == <<form, ops, pc, prog, sym, plan>>
-
 \* ---- the register literals of the CPU (tables built once by IsaAliasTab) ---------------------------------------
-RegPos(f) == {i \in 1..Len(f.flds) : f.flds[i].k = "enum" /\ RegClass(f.flds[i]) # ""}
 NamesOf(fld) == {fld.names[j][1] : j \in 1..Len(fld.names)}
 \* the spellings of different classes are disjoint
 LitsSane == /\ \A s, t \in 1..Len(LitTab) : LitTab[s].l = LitTab[t].l => s = t
@@ -101,24 +98,25 @@ Num(x) == ToString(x)
 ScenOk(n, i, t, s, inset) ==
   IF ScenMode = "all" /\ inset THEN TRUE ELSE s = ((Salt + n + 2 * i + t) % NS) + 1
 
-\* targets of a register field: the literals it lists (FormTab[n].p[k].ts); if the table is complete also every
-\* literal it does not list
+\* targets of a register field: the literals it lists (FldTab[q].names); if the table is complete also every literal
+\* it does not list
 AInit ==
-  \E n \in 1..Len(FormTab) : \E k \in 1..Len(FormTab[n].p) :
-    \E t \in (IF FieldsComplete THEN 1..Len(LitTab) ELSE Range(FormTab[n].p[k].ts)) : \E s \in 1..NS :
-    LET f   == FormTab[n].f
-        i   == FormTab[n].p[k].i
-        id  == Num(n) \o "_" \o Num(i) \o "_" \o Num(t) \o "_" \o Num(s)
-        a   == "QA" \o id
-        b   == "QB" \o id
-    IN /\ ScenOk(n, i, t, s, t \in Range(FormTab[n].p[k].ts))
-       /\ form = f
-       /\ pc = IF HasPc(f) THEN SeqPC ELSE 0
-       /\ ops = [FormTab[n].o EXCEPT ![i] = -1]
-       /\ prog = <<>>
-       /\ sym = {}
-       /\ plan = [i |-> i, lit |-> LitTab[t].l, scen |-> ScenNames[s],
-                  defs |-> ScenDefs(ScenNames[s], a, b, LitTab[t].l, Other(t)), use |-> ScenUse(ScenNames[s], a, b)]
+  \E n \in 1..Len(FormTab) : \E k \in 1..Len(FormTab[n].p) : \E q \in 1..Len(FldTab) :
+    /\ FldTab[q].fld = FormTab[n].f.flds[FormTab[n].p[k]]
+    /\ \E t \in {x \in 1..Len(LitTab) : FieldsComplete \/ LitTab[x].l \in FldTab[q].names} : \E s \in 1..NS :
+        LET f   == FormTab[n].f
+            i   == FormTab[n].p[k]
+            id  == Num(n) \o "_" \o Num(i) \o "_" \o Num(t) \o "_" \o Num(s)
+            a   == "QA" \o id
+            b   == "QB" \o id
+        IN /\ ScenOk(n, i, t, s, LitTab[t].l \in FldTab[q].names)
+           /\ form = f
+           /\ pc = IF HasPc(f) THEN SeqPC ELSE 0
+           /\ ops = [RepOps(f, IF HasPc(f) THEN SeqPC ELSE 0) EXCEPT ![i] = -1]
+           /\ prog = <<>>
+           /\ sym = {}
+           /\ plan = [i |-> i, lit |-> LitTab[t].l, scen |-> ScenNames[s],
+                      defs |-> ScenDefs(ScenNames[s], a, b, LitTab[t].l, Other(t)), use |-> ScenUse(ScenNames[s], a, b)]
 
 \* index of a register literal in the field's list (0: the instruction form does not have this register)
 IndexOf(fld, lit) ==
